@@ -235,7 +235,7 @@ def run(prop, tier, replay=None):
     rep.extra["cases_per_algo"] = per_algo
     rep.cov["states"] = max(rep.cov["states"], 1)
     rep.cov["transitions"] = max(rep.cov["transitions"], 1)
-    rep.cov["samples"] = [traces[4], traces[8]]
+    rep.cov["samples"] = [traces[i] for i in (4, 8) if i < len(traces)]
     rep.extra["sources"] = __import__("btload").source_info()
     rep.assumptions = ["3 tickers x 7 dates, prices in {1,2,4,8} (dyadic returns keep the window statistics exact in 32-bit rationals)",
                        "risk relations judged with relative tolerance 1e-3; PTE decisions within 2% of the cap are not judged; WeighERC / WeighMeanVar and the Ledoit-Wolf variants are not judged here (numerical optimisers)"]
